@@ -287,6 +287,53 @@ def extra_checks(rng, tier, g, info):
                 yield ("b32_dec %s %s" % (sx(hrp), sx(s2)),
                        "%d-character substitution of valid address %s accepted as version %s" % (w, addr, v2))
     info["substitution_samples"] = tried
+    # exhaustive over the WHOLE printable alphabet (not only the 32 data characters): every single substitution at
+    # every position, and every substitution of two ADJACENT characters inside the checksum and across the
+    # data/checksum boundary (thorough: at every position) — characters outside the charset must reject, whatever
+    # stands next to them
+    printable = [chr(c) for c in range(33, 127)]
+    ex = 0
+    samples = [("bc", 0, bytes(range(20))), ("tb", 1, bytes(rng.getrandbits(8) for _ in range(32)))]
+    if tier == "thorough":
+        samples += [(rng.choice(["bc", "tb"]), rng.choice([0, 1, 16]), bytes(rng.getrandbits(8) for _ in range(20)))
+                    for _ in range(4)]
+    for hrp, ver, prog in samples:
+        if ver == 0 and len(prog) not in (20, 32):
+            continue
+        addr = b.encode(hrp, ver, prog)
+        if addr is None:
+            continue
+        want = b.decode(hrp, addr)
+        L = len(addr)
+        pos = list(range(L))
+        pair_pos = range(L - 8, L - 1) if tier == "quick" else range(0, L - 1)
+
+        def bad(s2, why):
+            got = b.decode(hrp, s2)
+            if got != (None, None) and not (s2.lower() == addr and got == want):
+                return ("b32_dec %s %s" % (sx(hrp), sx(s2)), "%s of valid address %s accepted as %s" % (why, addr, got[0]))
+            return None
+        for j in pos:
+            for c in printable:
+                if c != addr[j]:
+                    ex += 1
+                    r = bad(addr[:j] + c + addr[j + 1:], "1-character substitution (full printable alphabet)")
+                    if r:
+                        yield r
+        for j in pair_pos:
+            found = 0
+            for c in printable:
+                if c == addr[j]:
+                    continue
+                for d in printable:
+                    if d == addr[j + 1]:
+                        continue
+                    ex += 1
+                    r = bad(addr[:j] + c + d + addr[j + 2:], "2 adjacent substitutions (full printable alphabet)")
+                    if r and found < 2:
+                        found += 1
+                        yield r
+    info["exhaustive_printable_substitutions"] = ex
 
 
 def deep_search(rng, tier, g, cand):
